@@ -50,6 +50,8 @@ pub mod token;
 pub mod transmission;
 pub mod transport;
 pub mod varint;
+#[cfg(all(aws_s2n_quic_verif, feature = "std"))]
+pub mod verif;
 pub mod xdp;
 
 #[cfg(any(test, feature = "testing"))]
